@@ -264,3 +264,92 @@ def inlined(f, node, depth=4, ctx=None, skip=()):
 def itext(f, node, skip=()):
     """Normalised text (no blanks) of inlined(f, node)."""
     return norm(inlined(f, node, skip=skip)).replace(' ', '')
+
+
+class _Arr:
+    """A tiny nested-list array for evaluating tests such as (g == 0).all(), (g == 0).all(-1).any() on a small model."""
+    def __init__(self, v):
+        self.v = v
+
+    def _map(self, f):
+        def rec(x):
+            return [rec(y) for y in x] if isinstance(x, list) else f(x)
+        return _Arr(rec(self.v))
+
+    def __eq__(self, o):
+        return self._map(lambda x: x == o)
+
+    def __ne__(self, o):
+        return self._map(lambda x: x != o)
+
+    def __invert__(self):
+        return self._map(lambda x: not x)
+
+    def _flat(self):
+        out = []
+
+        def rec(x):
+            if isinstance(x, list):
+                for y in x:
+                    rec(y)
+            else:
+                out.append(x)
+        rec(self.v)
+        return out
+
+    def reduce(self, fn, axis=None):
+        if axis is None:
+            return fn(self._flat())
+        if axis in (-1, 1) and self.v and isinstance(self.v[0], list):
+            return _Arr([fn(row) for row in self.v])
+        if axis in (-1, 0) and (not self.v or not isinstance(self.v[0], list)):
+            return fn(self.v)
+        raise ValueError('axis')
+
+    def __bool__(self):
+        f = self._flat()
+        if len(f) != 1:
+            raise ValueError('truth value of an array')
+        return bool(f[0])
+
+
+def batched_resample_keeps_going(f, test, name, ctx=None):
+    """Does the resampling test hold on a batch [[0,0],[1,1]] of `name`, whose first row is the identity string?  (True: the loop
+    goes on, as it must; False: it stops although one row is still all zero; None: the test is not in a form this reads.)"""
+    from .exprnf import ev, Undecidable
+    model = _Arr([[0, 0], [1, 1]])
+
+    def call(n, env, rec):
+        fn = n.func
+        if isinstance(fn, ast.Attribute) and fn.attr in ('all', 'any', 'sum'):
+            def arr(node):
+                # an elementwise comparison of the array with a constant (the evaluator's own comparison wants a truth value)
+                if isinstance(node, ast.Compare) and len(node.ops) == 1 and isinstance(node.ops[0], (ast.Eq, ast.NotEq)):
+                    a, b = rec(node.left), rec(node.comparators[0])
+                    if isinstance(a, _Arr):
+                        return (a == b) if isinstance(node.ops[0], ast.Eq) else (a != b)
+                return rec(node)
+            if isinstance(fn.value, ast.Name) and fn.value.id in ('numpy', 'np', 'torch'):
+                base, args = arr(n.args[0]), n.args[1:]
+            else:
+                base, args = arr(fn.value), n.args
+            axis = None
+            for a in args:
+                axis = rec(a)
+            for k in n.keywords:
+                if k.arg in ('dim', 'axis'):
+                    axis = rec(k.value)
+            if not isinstance(base, _Arr):
+                raise Undecidable('reduction of a non-array')
+            red = {'all': all, 'any': any, 'sum': sum}[fn.attr]
+            try:
+                return base.reduce(red, axis)
+            except ValueError:
+                raise Undecidable('axis')
+        raise Undecidable('call ' + norm(n))
+    e = inlined(f, test, ctx=ctx, skip=(name,))
+    try:
+        v = ev(e, {name: model}, call=call)
+        return bool(v)
+    except (Undecidable, ValueError, TypeError):
+        return None
